@@ -85,7 +85,7 @@ func recvTypeName(e ast.Expr) string {
 }
 
 // buildHooks prepares the overlay for the given stub table (only "model:" stubs).
-func buildHooks(l *Loaded, stubs map[string]string) (*hookPlan, error) {
+func buildHooks(l *Loaded, stubs map[string]string, crashFiles []string) (*hookPlan, error) {
 	plan := &hookPlan{files: map[string][]byte{}, reg: map[string]string{}}
 	type regEntry struct{ pkgPath, hook, model, srcPkg string }
 	var regs []regEntry
@@ -216,6 +216,32 @@ func buildHooks(l *Loaded, stubs map[string]string) (*hookPlan, error) {
 		plan.files[file] = []byte(out)
 		i := strings.LastIndex(target, ".")
 		regs = append(regs, regEntry{pkgPath: modPath + "/" + target[:i], hook: hook, model: target[i+1:], srcPkg: fn.Pkg.Pkg.Path()})
+	}
+	// crash points: replace the mutating os / json calls of the listed files by
+	// the zzverif wrappers (textually, on top of any function hooks)
+	for _, rel := range crashFiles {
+		file := repoDir + "/" + rel
+		src, have := plan.files[file]
+		if !have {
+			var err error
+			if ov, ok := l.overlay[file]; ok {
+				src = ov
+			} else if src, err = os.ReadFile(file); err != nil {
+				return nil, err
+			}
+		}
+		out := string(src)
+		for _, r := range [][2]string{{"os.OpenFile(", "zzcrash.OsOpenFile("}, {"os.CreateTemp(", "zzcrash.OsCreateTemp("}, {"os.Remove(", "zzcrash.OsRemove("},
+			{"os.Rename(", "zzcrash.OsRename("}, {"os.WriteFile(", "zzcrash.OsWriteFile("}, {"json.NewEncoder(", "zzcrash.NewEncoder("}} {
+			out = strings.ReplaceAll(out, r[0], r[1])
+		}
+		i := strings.Index(out, "import (")
+		if i < 0 {
+			return nil, fmt.Errorf("crash file %s: no import block", rel)
+		}
+		out = out[:i+len("import (")] + "\n\tzzcrash \"" + modPath + "/zzverif\"" + out[i+len("import ("):]
+		out += "\n// keep the imports used after the call-site replacement\nvar _ = os.Remove\nvar _ = json.NewEncoder\nvar _ = zzcrash.FSOps\n"
+		plan.files[file] = []byte(out)
 	}
 	// registration files
 	byPkg := map[string][]regEntry{}
